@@ -466,6 +466,10 @@ func (p *parser) parseDotMember(left ast.Expression) ast.Expression {
 	idx := p.idx
 
 	if !matchIdentifier.MatchString(literal) {
+		if p.token == token.IDENTIFIER {
+			// scanned as an identifier, but not an ES5 IdentifierName
+			p.errorUnexpectedToken(p.token)
+		}
 		p.expect(token.IDENTIFIER)
 		p.nextStatement()
 		return &ast.BadExpression{From: period, To: p.idx}
